@@ -291,7 +291,7 @@ def run_history(ctx, world, hist, tofu=True, label="exhaustive"):
                 failing = op[2]
                 kind = "get"
                 world.fail_next[TARGETS[op[1]][1]] = failing
-            if kind in ("get", "upload", "redirect"):
+            if kind in ("get", "upload", "delete", "redirect"):
                 t = op[1]
                 host, peer = TARGETS[t]
                 hops = [(key_of(world, t), peer)]
@@ -324,6 +324,8 @@ def run_history(ctx, world, hist, tofu=True, label="exhaustive"):
                 async def go():
                     if kind == "upload":
                         return await client.upload(url, b"payload", mime_type="text/plain", token="secret-token")
+                    if kind == "delete":
+                        return await client.delete(url, token="secret-token")
                     if in_context:
                         async with client:
                             return await client.get(url)
@@ -341,7 +343,7 @@ def run_history(ctx, world, hist, tofu=True, label="exhaustive"):
                 if kind == "redirect":
                     ctx.count("monitor", "redirect_hops_checked")
                 wit.update(url=url, expected=exp, expected_detail=exp_detail, result=res)
-                entry = "upload" if kind == "upload" else "get"
+                entry = kind if kind in ("upload", "delete") else "get"
                 cclass = world.current[hops[-1][1]] if exp == "response" else (exp_detail[1] if exp == "refused-unparsable" else world.current[[pr for k2, pr in hops if k2 == exp_detail[0]][0]])
                 sfx = f":entry={entry}:cert={cclass}" + (":via-redirect" if kind == "redirect" else "")
                 if exp == "changed":
@@ -445,7 +447,7 @@ def run_history(ctx, world, hist, tofu=True, label="exhaustive"):
             if not tofu:
                 exp_table = {k2: v for k2, v in model.items()}  # admin ops only
             if got != exp_table:
-                failed = kind in ("get", "upload", "redirect") and outcomes[-1].split(":")[0] in ("changed", "refused-unparsable")
+                failed = kind in ("get", "upload", "delete", "redirect") and outcomes[-1].split(":")[0] in ("changed", "refused-unparsable")
                 clause = "pin-mutated" if failed else "store-differs-after-import" if kind in ("import", "restore") else ("first-use-not-pinned" if any(k2 not in got for k2 in exp_table) else "cross-host")
                 ctx.violation(f"{clause}:op={kind}", "known_hosts differs from the pin-map model after this step",
                               dict(wit, table=sorted((f"{a}:{b}", v) for (a, b), v in got.items()), model=sorted((f"{a}:{b}", v) for (a, b), v in exp_table.items())))
@@ -462,13 +464,13 @@ def run_history(ctx, world, hist, tofu=True, label="exhaustive"):
 
 
 ALPHABET = [
-    ("get", "t1"), ("upload", "t1"), ("get", "t2"), ("get", "t3"), ("redirect", "t1", "t3"), ("redirect", "t2", "t1"),
+    ("get", "t1"), ("upload", "t1"), ("delete", "t1"), ("get", "t2"), ("get", "t3"), ("redirect", "t1", "t3"), ("redirect", "t2", "t1"),
     ("swap", "A", "ec2"), ("swap", "A", "tbool"), ("swap", "B", "rsa"), ("trust", "t1"), ("revoke", "t1"), ("import", "t3", "ed"),
     ("getfail", "t1", "close-before-header"),
     ("import-bad", "t1", "ec2", "replace"),
     ("restore", "replace"),
 ]
-EXTRA = [("get", "t4"), ("upload", "t3"), ("swap", "A", "ed"), ("swap", "A", "rsa"), ("swap", "B", "tver"), ("swap", "A", "ec1"), ("swap", "B", "ec1"), ("clear",),
+EXTRA = [("get", "t4"), ("upload", "t3"), ("delete", "t3"), ("delete", "t2"), ("swap", "A", "ed"), ("swap", "A", "rsa"), ("swap", "B", "tver"), ("swap", "A", "ec1"), ("swap", "B", "ec1"), ("clear",),
          ("redirect", "t3", "t4"), ("upload", "t2"), ("import", "t1", "ec2"), ("revoke", "t3"), ("trust", "t3"),
          ("import-bad", "t1", "ec2", "merge"), ("import-bad", "t3", "rsa", "replace"),
          ("getctx", "t1"), ("getctx", "t3"), ("restore", "merge"), ("import", "t1", "ec1", "replace"), ("import", "t2", "rsa", "replace"),
@@ -486,7 +488,7 @@ def run_l3(ctx):
             if not ctx.mine(k):
                 continue
             # skip histories without any network call
-            if not any(o[0] in ("get", "upload", "redirect", "getfail", "getctx") for o in hist):
+            if not any(o[0] in ("get", "upload", "delete", "redirect", "getfail", "getctx") for o in hist):
                 continue
             if ctx.quick() and (k // ctx.nshards) % 5:
                 continue
